@@ -181,6 +181,11 @@ fn build_pool(ctx: &mut Ctx) -> Vec<PoolKey> {
     add(ctx, k, "decoy-cv25519");
     let k = gen_key(ctx, "decoy-x25519-v6-locked", KeyVersion::V6, KeyType::Ed25519, false, &[KeyType::X25519], &[5, 5], 1);
     add(ctx, k, "decoy-x25519-v6-locked");
+    // primary locked, encryption subkey not: the lock state is a property of each component
+    let k = gen_key(ctx, "cv25519-primary-locked", KeyVersion::V4, KeyType::Ed25519Legacy, false, &[KeyType::ECDH(ECCCurve::Curve25519Legacy)], &[1, 0], 1);
+    add(ctx, k, "cv25519-primary-locked");
+    let k = gen_key(ctx, "x25519-v6-primary-locked", KeyVersion::V6, KeyType::Ed25519, false, &[KeyType::X25519], &[2, 0], 1);
+    add(ctx, k, "x25519-v6-primary-locked");
     if ctx.thorough() {
         let k = gen_key(ctx, "rsa-locked", KeyVersion::V4, KeyType::Rsa(2048), true, &[KeyType::Rsa(2048)], &[1, 1], 1);
         add(ctx, k, "rsa-locked");
